@@ -95,9 +95,9 @@ func checkC04() fw.Check {
 		MinNontrivial: 60,
 		Assumptions:   []string{"wirefmt/refmatch trusted", "Linux build"},
 		Gen: func(tier string, seed int64) []fw.Case {
-			wins, bases := []window{{1, 8}}, basesQuick[:1]
+			wins, bases := []window{{1, 8}, {3, 12}, {250, 255}}, basesQuick
 			if tier == "thorough" {
-				wins, bases = []window{{1, 8}, {3, 12}, {250, 255}, {1, 30}}, basesThorough
+				wins, bases = []window{{1, 8}, {3, 12}, {250, 255}, {1, 30}, {2, 9}}, basesThorough
 			}
 			var cases []fw.Case
 			for _, v := range refmatch.Variants {
@@ -215,11 +215,26 @@ func checkC05() fw.Check {
 		MinNontrivial: 60,
 		Assumptions:   []string{"virtual clock of testing/synctest: no time passes between time.Now() in SendProbe and Sink.WriteTo, so a send timestamp taken after WriteTo is not detectable", "Linux build"},
 		Gen: func(tier string, seed int64) []fw.Case {
-			wins := []window{{1, 8}}
+			wins := []window{{1, 8}, {3, 12}, {250, 255}}
 			if tier == "thorough" {
-				wins = []window{{1, 8}, {3, 12}, {250, 255}, {1, 30}}
+				wins = []window{{1, 8}, {3, 12}, {250, 255}, {1, 30}, {2, 17}, {1, 64}}
 			}
 			var cases []fw.Case
+			// end-to-end clause: whole requests (1 run + e probes); every sample must be the destination-hop RTT of its own probe
+			for i, proto := range []string{"udp", "icmp", "tcp"} {
+				for _, e := range []int{1, 3, 5} {
+					for _, reach := range []bool{true, false} {
+						for perm := 0; perm < 3; perm++ {
+							rq := c15Req{proto: proto, q: 1, e: e, fetcher: "none", delayPerm: perm + i, reach: reach, cancelAt: -1}
+							id := fmt.Sprintf("C05/e2e/%s/e%d/reach%v/%d", proto, e, reach, perm)
+							cases = append(cases, fw.Case{ID: id, Bubble: true, Run: func(c *fw.Ctx) {
+								runC15Case(c, id, rq)
+								c.Nontrivial(fmt.Sprintf("e2e/%s/e%d/reach%v", rq.proto, rq.e, rq.reach))
+							}})
+						}
+					}
+				}
+			}
 			for _, v := range refmatch.Variants {
 				for _, scale := range []string{"prod", "discr"} {
 					for _, w := range wins {
@@ -314,16 +329,16 @@ func checkC06() fw.Check {
 		MinNontrivial: 60,
 		Assumptions:   []string{"wirefmt is the independent verifier (cross-validated by the kernel routers of C13)", "Paris-mode identifiers are random: collisions are counted, not flagged", "Linux build"},
 		Gen: func(tier string, seed int64) []fw.Case {
-			wins, bases := []window{{1, 8}, {250, 255}, {1, 255}, {255, 255}}, basesQuick
+			wins, bases := windowsThorough, basesThorough[:3]
 			if tier == "thorough" {
 				wins, bases = windowsThorough, basesThorough
 			}
 			var cases []fw.Case
 			// checksum hunt: the UDP source port is chosen by the kernel, so the probe bytes (and their checksum) differ
 			// from run to run; many full-window runs sweep the checksum space (a computed checksum of 0 must go out as 0xffff)
-			hunts := 16
+			hunts := 24
 			if tier == "thorough" {
-				hunts = 160
+				hunts = 400
 			}
 			for i := 0; i < hunts; i++ {
 				for _, vn := range []string{"udp6", "udp4"} {
